@@ -15,11 +15,19 @@
 //   sealall                            seal the root zone (recursively everything)
 //   dump                               all ordered host pairs (hosts sorted by name), including src == dst
 //   pair <src> <dst>
+//   dumptree                           Z <zone> <parent|-> <netpoint> <default gateway|->  /  N <netpoint> <zone> <host|router|zone>
+//   dumplocal                          every zone's own get_local_route for all ordered pairs of its vertices:
+//                                      L <zone> <src> <dst> <latency> <gw_src|-> <gw_dst|-> <links...>  or  LX <zone> <src> <dst> <msg>
 // Output, one line per pair:  R <src> <dst> <latency %.17g> <link names...>   or   X <src> <dst> <exception text>
 #include "drv.hpp"
 #include <map>
 #include <algorithm>
 #include <simgrid/s4u.hpp>
+#define protected public
+#define private public
+#include <simgrid/kernel/routing/NetZoneImpl.hpp>
+#undef protected
+#undef private
 #include <simgrid/kernel/routing/NetPoint.hpp>
 #include <simgrid/kernel/routing/NetZoneImpl.hpp>
 #include <xbt/log.h>
@@ -93,6 +101,50 @@ static void cluster_cbs(sg4::NetZone* z, const std::string& name, bool lb, bool 
 static sg4::Link::SharingPolicy pol(const std::string& s)
 {
   return s == "split" ? sg4::Link::SharingPolicy::SPLITDUPLEX : sg4::Link::SharingPolicy::SHARED;
+}
+static std::map<const void*, std::string> link_names;
+static const char* lname(const void* impl)
+{
+  if (link_names.empty())
+    for (auto* l : eng->get_all_links())
+      link_names[l->get_impl()] = l->get_name();
+  auto it = link_names.find(impl);
+  return it == link_names.end() ? "__loopback__" : it->second.c_str();
+}
+static void dump_zone(simgrid::kernel::routing::NetZoneImpl* z, bool local)
+{
+  using simgrid::kernel::routing::Route;
+  if (not local) {
+    std::string gw = "-";
+    try {
+      gw = z->get_gateway()->get_name();
+    } catch (const std::exception&) {
+    }
+    printf("Z %s %s %s %s\n", z->get_cname(), z->get_parent() ? z->get_parent()->get_cname() : "-",
+           z->get_netpoint()->get_cname(), gw.c_str());
+    for (auto* v : z->get_vertices())
+      printf("N %s %s %s\n", v->get_cname(), z->get_cname(), v->is_host() ? "host" : v->is_router() ? "router" : "zone");
+  } else {
+    for (auto* a : z->get_vertices())
+      for (auto* b : z->get_vertices()) {
+        try {
+          Route r;
+          double lat = 0;
+          z->get_local_route(a, b, &r, &lat);
+          printf("L %s %s %s %.17g %s %s", z->get_cname(), a->get_cname(), b->get_cname(), lat,
+                 r.gw_src_ ? r.gw_src_->get_cname() : "-", r.gw_dst_ ? r.gw_dst_->get_cname() : "-");
+          for (auto* l : r.link_list_)
+            printf(" %s", lname(l));
+          printf("\n");
+        } catch (const std::exception& e) {
+          std::string m = e.what();
+          std::replace(m.begin(), m.end(), '\n', ' ');
+          printf("LX %s %s %s %s\n", z->get_cname(), a->get_cname(), b->get_cname(), m.substr(0, 120).c_str());
+        }
+      }
+  }
+  for (auto* c : z->get_children())
+    dump_zone(c, local);
 }
 static void one_pair(sg4::Host* a, sg4::Host* b)
 {
@@ -186,6 +238,10 @@ int main(int argc, char** argv)
         for (auto* a : hosts)
           for (auto* b : hosts)
             one_pair(a, b);
+      } else if (c == "dumptree") {
+        dump_zone(e.get_netzone_root()->get_impl(), false);
+      } else if (c == "dumplocal") {
+        dump_zone(e.get_netzone_root()->get_impl(), true);
       } else if (c == "pair") {
         one_pair(e.host_by_name(t[1]), e.host_by_name(t[2]));
       } else {
